@@ -14,11 +14,12 @@ def f2(x):
 
 
 def g1(x, y, z):
-    return T.add(T.xor(T.rotr(x, 10), T.rotr(z, 23)), T.rotr(y, 8))
+    """-> the two summands (x>>>10 ^ z>>>23) and (y>>>8) of g1"""
+    return T.xor(T.rotr(x, 10), T.rotr(z, 23)), T.rotr(y, 8)
 
 
 def g2(x, y, z):
-    return T.add(T.xor(T.rotl(x, 10), T.rotl(z, 23)), T.rotl(y, 8))
+    return T.xor(T.rotl(x, 10), T.rotl(z, 23)), T.rotl(y, 8)
 
 
 def h(table_sel, x):
@@ -56,7 +57,10 @@ def step(tb, i, feedback):
     else:
         off, other = 512, 0
         g = g2
-    newv = T.add(tb.get(off + j), g(tb.get(off + m(3)), tb.get(off + m(10)), tb.get(off + m(511))))
+    # P[j] + g1(...) = P[j] + (y>>>8) + (x>>>10 ^ z>>>23).  Sums of more than terms.RING_EXPAND_LIMIT monomials are
+    # canonical only up to association, so the three summands are added in the customary order (see DESIGN.md)
+    gxz, gy = g(tb.get(off + m(3)), tb.get(off + m(10)), tb.get(off + m(511)))
+    newv = T.add(T.add(tb.get(off + j), gy), gxz)
     tb.set(off + j, newv)
     x12 = tb.get(off + m(12))
     hv = h(lambda it: tb.sel(other, it), x12)
